@@ -561,7 +561,7 @@ def cli_factory_part(rep, tier):
     vecs = common.parse_vectors(out)
     rep.notes['cli_factory_vectors_exported_by_tlc'] = len(vecs)
     with mp.get_context('fork').Pool(common.NCPU) as pool:
-        obs = pool.map(cli_factory_obs, vecs, chunksize=max(1, len(vecs) // 128))
+        obs = pool.map(common.limited, [(cli_factory_obs, v_) for v_ in vecs], chunksize=max(1, len(vecs) // 128))
     rep.evaluations += len(obs)
     verdicts, st = common.validate_observations(rep.pid, 'Trace_Cli', obs, tag='cli')
     rep.add_trace_stats(st, len(obs))
@@ -582,7 +582,7 @@ def run_c12(rep, tier):
     vecs = common.parse_vectors(out)
     rep.notes['route_vectors_exported_by_tlc'] = len(vecs)
     with mp.get_context('fork').Pool(common.NCPU) as pool:
-        obs = pool.map(route_obs, vecs, chunksize=max(1, len(vecs) // 256))
+        obs = pool.map(common.limited, [(route_obs, v_) for v_ in vecs], chunksize=max(1, len(vecs) // 256))
     obs += other_observations(tier)
     obs += subprocess_observations()
     rep.evaluations = len(obs)
